@@ -29,6 +29,9 @@ func scenarioFor(gc graphCase) *gen {
 	if gc.Kind == "reexport" {
 		return genReexport(gc.Seed)
 	}
+	if gc.Kind == "resolver" {
+		return genResolver(gc.Seed)
+	}
 	if gc.Directed >= 0 {
 		return genDirected(gc.Directed, gc.Seed)
 	}
@@ -220,6 +223,10 @@ func run(c *core.Ctx) int {
 	for i := 0; i < nReexport; i++ {
 		gcases = append(gcases, core.J(graphCase{Seed: rng.U64(), Directed: -1, Kind: "reexport"}))
 	}
+	nResolver := c.N(60, 600)
+	for i := 0; i < nResolver; i++ {
+		gcases = append(gcases, core.J(graphCase{Seed: rng.U64(), Directed: -1, Kind: "resolver"}))
+	}
 	nGraphs := c.N(3000, 60000)
 	for i := 0; i < nGraphs; i++ {
 		gcases = append(gcases, core.J(graphCase{Seed: rng.U64(), Directed: -1}))
@@ -246,6 +253,8 @@ func run(c *core.Ctx) int {
 			c.Distinct("directed_scenarios", gr.Name)
 		} else if r.Index < nDirected+nReexport {
 			c.Count("reexport_chain_scenarios", 1)
+		} else if r.Index < nDirected+nReexport+nResolver {
+			c.Count("import_resolver_scenarios", 1)
 		} else {
 			c.Count("graphs", 1)
 			if gr.Mods >= 2 {
@@ -280,7 +289,7 @@ func run(c *core.Ctx) int {
 	// classes the property names must have been reached
 	for _, k := range []string{"cross_instance_read_after_write_global", "cross_instance_read_after_write_memory", "cross_instance_read_after_write_table",
 		"indirect_rtcall_callee_sibling-instance-of-same-compiled-module", "indirect_rtcall_callee_other-module", "indirect_tcall_callee_sibling-instance-of-same-compiled-module",
-		"op_rci", "op_leaf4", "reexport_function_imported_with_type_of_another_function", "reexport_exact_type_importers", "modules_with_interleaved_import_section",
+		"op_rci", "op_leaf4", "resolver_mode_all", "resolver_mode_subset", "resolver_mode_none", "reexport_function_imported_with_type_of_another_function", "reexport_exact_type_importers", "modules_with_interleaved_import_section",
 		"capture_global-init_immutable", "capture_global-init_mutable", "capture_data-offset_mutable", "capture_elem-offset_mutable", "capture_elem-init_mutable",
 		"fail_data-oob", "fail_elem-oob", "fail_start-trap", "fail_missing", "fail_link"} {
 		if c.Counter(k) == 0 {
